@@ -103,7 +103,9 @@ class PythonCV2XLinkLayer(LinkLayer):
             if self.receive_callback:
                 try:
                     self.receive_callback(data)
-                except NotImplementedError as e:
+                except Exception as e:  # pylint: disable=broad-except
+                    # A frame that cannot be processed is discarded; it must never
+                    # terminate the receive loop.
                     print("Error decoding packet: " + str(e))
 
     def stop(self) -> None:
